@@ -505,6 +505,156 @@ def per_core_table(ctx, cloud, cx, lookup):
     return [(k.replace(' ', ''), v) for k, v in vals if isinstance(v, int) and v >= 1]
 
 
+WORKER = 'batch/batch/worker/worker.py'
+
+
+def worker_job_billing(ctx):
+    """(W) the call site that produces what a job is actually billed: worker.py Job.__init__, the statements from reading the
+    job spec's resources to `self.resources = instance_config.quantified_resources(...)` (fragment; the rest of the constructor
+    - mounts, secrets, tokens - does not touch these fields: scan below).  For ALL job specs and both kinds of instance:
+      * cpu and memory billed are the cores_mcpu / memory_bytes of the job spec;
+      * the storage billed is the external storage the worker attaches for the job (self.external_storage_in_gib, the size of
+        the disk created / the share of the data disk reserved in setup_io): the requested storage on a pool worker, and 0 on a
+        job-private instance - there the request is served by the instance's own data disk, which is billed as part of the
+        worker; so the job that owns a job-private worker is billed quantified_resources(cpu, memory, 0), the very call the
+        driver makes for the whole worker (create_vm: scan below);
+      * self.resources is the result of that call."""
+    sig = pyvc.find_function(pyast.parse(core.read_repo(IC)), 'InstanceConfig.quantified_resources')
+    qparams = [a.arg for a in sig.args.args[1:]]
+    ctx.add(core.decided('C13/InstanceConfig.quantified_resources/signature-is-cpu-memory-extra-storage', qparams == ['cpu_in_mcpu', 'memory_in_bytes', 'extra_storage_in_gib'], repr(qparams), kind='vacuity'))
+    calls_seen = []
+
+    def billed_call(eng, st, args, kw, node):
+        if len(args) > len(qparams) or set(kw) - set(qparams[len(args):]):
+            raise pyvc.Undecided('instance_config.quantified_resources is called with unexpected arguments')
+        vals = dict(zip(qparams, args))
+        vals.update(kw)
+        if set(vals) != set(qparams):
+            raise pyvc.Undecided('instance_config.quantified_resources is not given all of %r' % (qparams,))
+        cpu, mem, sto = [pyvc.to_z3(vals[p], 'int') for p in qparams]
+        env = st.env
+        me = env['self']
+        priv = pyvc.to_z3(env['instance_config'].fields['job_private'], 'bool')
+        calls_seen.append(node.lineno)
+        eng.oblige(st, 'billed/cpu-is-the-cores-of-the-job-spec', cpu == env['SPEC_CORES'])
+        eng.oblige(st, 'billed/memory-is-the-memory-of-the-job-spec', mem == env['SPEC_MEMORY'])
+        ext = me.fields.get('external_storage_in_gib')
+        eng.oblige(st, 'billed/storage-is-the-external-storage-the-worker-attaches-for-the-job', ext is not None and sto == pyvc.to_z3(ext, 'int'))
+        eng.oblige(st, 'billed/no-external-storage-is-billed-on-a-job-private-instance', z3.Implies(priv, sto == 0))
+        eng.oblige(st, 'billed/a-pool-job-is-billed-the-storage-of-its-spec', z3.Implies(z3.Not(priv), sto == env['SPEC_STORAGE']))
+        return eng.uf('billed', ['int', 'int', 'int'], 'U')(cpu, mem, sto)
+
+    def setup(eng, st):
+        cores, mem, sto = z3.Int('spec_cores_mcpu'), z3.Int('spec_memory_bytes'), z3.Int('spec_storage_gib')
+        st.env['SPEC_CORES'], st.env['SPEC_MEMORY'], st.env['SPEC_STORAGE'] = cores, mem, sto
+        st.assume(z3.And(cores >= 0, mem >= 0, sto >= 0))
+        st.env['job_spec'] = SRecord('dict', {'resources': SRecord('dict', {'cores_mcpu': cores, 'memory_bytes': mem, 'storage_gib': sto})})
+        st.env['instance_config'] = SRecord('InstanceConfig', {'job_private': z3.Bool('instance_job_private')})
+        st.env['self'] = SRecord('Job', {})
+
+    c = Contract(
+        path=WORKER,
+        qualname='Job.__init__',
+        label='worker.Job.__init__[billing]',
+        fragment=(r"re:^self\.cpu_in_mcpu = ", r"re:^self\.resources = "),
+        extra_inputs={'RESERVED_STORAGE_GB_PER_CORE': 'int'},
+        requires=['RESERVED_STORAGE_GB_PER_CORE >= 0'],
+        setup=setup,
+        float_as_real=True,
+        spec_funcs={'billed': (['int', 'int', 'int'], 'U'), 'valid_storage': (['int'], 'bool')},
+        calls={
+            'instance_config.quantified_resources': billed_call,
+            'is_valid_storage_request': lambda eng, st, args, kw, node: eng.uf('valid_storage', ['int'], 'bool')(pyvc.to_z3(args[1], 'int')),
+        },
+        raises={'AssertionError': 'not (SPEC_STORAGE == 0 or valid_storage(SPEC_STORAGE))'},
+        ensures=[
+            ('external-storage-is-zero-on-a-job-private-instance-else-the-request', 'self.external_storage_in_gib == ite(instance_config.job_private, 0, SPEC_STORAGE)'),
+            ('on-a-job-private-instance-the-request-is-served-by-the-instance-data-disk', 'implies(instance_config.job_private, self.data_disk_storage_in_gib == SPEC_STORAGE)'),
+            ('job-resources-are-the-quantities-of-spec-cpu-memory-and-attached-external-storage', 'self.resources == billed(SPEC_CORES, SPEC_MEMORY, self.external_storage_in_gib)'),
+            ('the-job-owning-a-job-private-worker-is-billed-like-the-worker-with-no-extra-storage', 'implies(instance_config.job_private, self.resources == billed(self.cpu_in_mcpu, self.memory_in_bytes, 0))'),
+        ],
+        canaries=[('never-bills-external-storage', 'self.resources == billed(SPEC_CORES, SPEC_MEMORY, 0)')],
+    )
+    pyvc.Engine(ctx, c).run()
+    ctx.add(core.decided('C13/worker.Job.__init__/the-billing-call-is-reached', bool(calls_seen), repr(calls_seen), kind='vacuity'))
+    _worker_scans(ctx)
+
+
+def _worker_scans(ctx):
+    """closed-world facts about batch/worker/worker.py and the drivers that the fragment contract rests on"""
+    tree = pyast.parse(core.read_repo(WORKER))
+    init = pyvc.find_function(tree, 'Job.__init__')
+
+    def attr_stores(root, attr):
+        out = []
+        for n in pyast.walk(root):
+            tg = n.targets if isinstance(n, (pyast.Assign, pyast.Delete)) else ([n.target] if isinstance(n, (pyast.AugAssign, pyast.AnnAssign)) else [])
+            for t in tg:
+                for x in pyast.walk(t):
+                    if isinstance(x, pyast.Attribute) and x.attr == attr and isinstance(x.ctx, (pyast.Store, pyast.Del)):
+                        out.append(x)
+            if isinstance(n, pyast.Call) and pyvc._dotted(n.func) in ('setattr', 'delattr') and len(n.args) >= 2 and not (isinstance(n.args[1], pyast.Constant) and n.args[1].value != attr):
+                out.append(n)
+        return out
+
+    inside = {id(x) for x in pyast.walk(init)}
+    # `self.<attr> = ...` inside a class that is not a Job (Container has its own cpu_in_mcpu) is another object's field
+    job_classes = {'Job'}
+    grew = True
+    while grew:
+        grew = False
+        for cdef in tree.body:
+            if isinstance(cdef, pyast.ClassDef) and cdef.name not in job_classes and any(pyvc._dotted(b) in job_classes for b in cdef.bases):
+                job_classes.add(cdef.name)
+                grew = True
+    foreign_self = set()
+    for cdef in tree.body:
+        if isinstance(cdef, pyast.ClassDef) and cdef.name not in job_classes:
+            foreign_self |= {id(x) for x in pyast.walk(cdef) if isinstance(x, pyast.Attribute) and isinstance(x.value, pyast.Name) and x.value.id == 'self'}
+    for attr in ('external_storage_in_gib', 'resources', 'cpu_in_mcpu', 'memory_in_bytes'):
+        allw = [x for x in attr_stores(tree, attr) if id(x) not in foreign_self]
+        outside = [x for x in allw if id(x) not in inside]
+        ctx.add(core.decided('C13/worker/%s-of-a-job-is-set-only-in-Job.__init__' % attr, bool(allw) and not outside, 'stores outside Job.__init__ at lines %r' % [x.lineno for x in outside], kind='frame'))
+    # within Job.__init__ each of them is assigned once, inside the verified fragment (nothing after the billing call changes them)
+    frag_lines = [n.lineno for n in init.body if pyast.unparse(n).startswith(('self.cpu_in_mcpu = ', 'self.resources = '))]
+    if len(frag_lines) == 2:
+        lo, hi = frag_lines
+        hi_end = [n.end_lineno for n in init.body if n.lineno == hi][0]
+        stray = [(a, x.lineno) for a in ('external_storage_in_gib', 'resources', 'cpu_in_mcpu', 'memory_in_bytes') for x in attr_stores(init, a) if not lo <= x.lineno <= hi_end]
+        ctx.add(core.decided('C13/worker.Job.__init__/billing-fields-are-assigned-only-in-the-verified-fragment', not stray, repr(stray), kind='frame'))
+    else:
+        ctx.add(core.decided('C13/worker.Job.__init__/billing-fields-are-assigned-only-in-the-verified-fragment', False, 'fragment boundaries not found: %r' % frag_lines, kind='frame'))
+    # the figure billed is the size of what the worker attaches: every disk the worker creates for a job has that size, and the
+    # status the worker reports to the driver carries self.resources
+    disks = [n for n in pyast.walk(tree) if isinstance(n, pyast.Call) and isinstance(n.func, pyast.Attribute) and n.func.attr == 'create_disk']
+    sizes = [pyast.unparse(k.value) for n in disks for k in n.keywords if k.arg == 'size_in_gb']
+    ctx.add(core.decided('C13/worker/every-disk-created-for-a-job-has-the-billed-external-storage-size', bool(disks) and len(sizes) == len(disks) and all(s == 'self.external_storage_in_gib' for s in sizes), repr(sizes), kind='scan'))
+    reported = [pyast.unparse(v) for n in pyast.walk(tree) if isinstance(n, pyast.Dict) for k, v in zip(n.keys, n.values) if isinstance(k, pyast.Constant) and k.value == 'resources' and isinstance(v, pyast.Attribute)]
+    ctx.add(core.decided('C13/worker/job-status-reports-the-resources-computed-at-construction', 'self.resources' in reported and all(r == 'self.resources' for r in reported), repr(reported), kind='scan'))
+    # the driver bills the WHOLE worker as quantified_resources(cores * 1000, machine memory, 0)
+    for path, qn in (('batch/batch/cloud/gcp/driver/resource_manager.py', 'GCPResourceManager.create_vm'), ('batch/batch/cloud/azure/driver/resource_manager.py', 'AzureResourceManager.create_vm')):
+        try:
+            fn = pyvc.find_function(pyast.parse(core.read_repo(path)), qn)
+        except (core.Undecided, OSError) as e:
+            raise pyvc.Undecided('anchor-moved: %s::%s (%s)' % (path, qn, e))
+        qcalls = [n for n in pyast.walk(fn) if isinstance(n, pyast.Call) and isinstance(n.func, pyast.Attribute) and n.func.attr == 'quantified_resources']
+        ok = len(qcalls) == 1
+        detail = ''
+        if ok:
+            call = qcalls[0]
+            names = ['cpu_in_mcpu', 'memory_in_bytes', 'extra_storage_in_gib']
+            vals = dict(zip(names, call.args))
+            vals.update({k.arg: k.value for k in call.keywords})
+            detail = repr({k: pyast.unparse(v) for k, v in vals.items()})
+            sto = vals.get('extra_storage_in_gib')
+            cpu = vals.get('cpu_in_mcpu')
+            defs = {t.id: pyast.unparse(n.value) for n in pyast.walk(fn) if isinstance(n, pyast.Assign) for t in n.targets if isinstance(t, pyast.Name)}
+            cpu_txt = defs.get(cpu.id) if isinstance(cpu, pyast.Name) else (pyast.unparse(cpu) if cpu is not None else None)
+            ok = isinstance(sto, pyast.Constant) and sto.value == 0 and type(sto.value) is int and cpu_txt in ('cores * 1000', '1000 * cores')
+            detail += ' cpu=%r' % (cpu_txt,)
+        ctx.add(core.decided('C13/%s/whole-worker-is-billed-all-cores-and-no-external-storage' % qn, ok, detail, kind='scan'))
+
+
 def native_witness(ctx):
     """concrete search on the real code, usable when the contracts no longer apply to a changed source (vc/check.py)"""
     return core.run_native(open(os.path.join(os.path.dirname(__file__), 'native', 'c13_replay.py')).read(), {})
@@ -571,5 +721,6 @@ def build(ctx):
     packing_lemma(ctx)
     for cloud in MEMORY_HELPERS:
         memory_share(ctx, cloud)
+    worker_job_billing(ctx)
     ctx.witness_search = lambda: core.run_native(open(os.path.join(os.path.dirname(__file__), 'native', 'c13_replay.py')).read(), {})
     ctx.assume('resource quantities are Python ints (unbounded); constructor arguments of int type are non-negative (disk sizes, accelerator counts)')
